@@ -319,7 +319,7 @@ fn c09_enc_publish_q2() {
     publish_body(QoS::ExactlyOnce, 0);
 }
 
-// @harness props=C01 tier=quick layer=L1
+// @harness props=C01 tier=thorough layer=L1
 // @harness funcs="(oracle consistency) reference PUBLISH encoder vs check_client_packet"
 // @harness sym="all PUBLISH fields; payload 2 bytes" bounds="variant q0, as c09_enc_publish_q0"
 #[kani::proof]
@@ -337,7 +337,7 @@ fn c01_ref_publish_wellformed_q1_props() {
     ref_publish_ok(QoS::AtLeastOnce, 1);
 }
 
-// @harness props=C01 tier=quick layer=L1
+// @harness props=C01 tier=thorough layer=L1
 // @harness funcs="(oracle consistency) reference PUBLISH encoder vs check_client_packet"
 // @harness sym="all PUBLISH fields; payload 2 bytes" bounds="variant q2, as c09_enc_publish_q2"
 #[kani::proof]
@@ -346,7 +346,7 @@ fn c01_ref_publish_wellformed_q2() {
     ref_publish_ok(QoS::ExactlyOnce, 0);
 }
 
-// @harness props=C01 tier=quick layer=L1
+// @harness props=C01 tier=thorough layer=L1
 // @harness funcs="(oracle consistency) reference PUBLISH encoder vs check_client_packet"
 // @harness sym="all PUBLISH fields; payload 2 bytes" bounds="variant q1_correlation, as c09_enc_publish_q1_correlation"
 #[kani::proof]
